@@ -426,6 +426,13 @@ def replay_case(chk, r, info):
             if not r["nan"] and built[0] == "ok" and dec[1].value != built[1].value:
                 viol(chk, "RoundTrip", dict(type=ty, what="value-changed", **({"class": sig["class"]} if "class" in sig else {})),
                               dict(detail, constructed=repr(built[1].value)[:80], after_round_trip=repr(dec[1].value)[:80]), dict(rp, n=n))
+            # the decoded value handed on through the copy constructor (what Sequence.encode does with every atomic element:
+            # element.klass(value)) must still encode to the octets it was decoded from
+            rc = attempt(lambda: impl_encode(klass(dec[1]), n))
+            chk.monitor("RoundTrip")
+            if rc[0] != "ok" or rc[1] != exp_o:
+                viol(chk, "RoundTrip", dict(type=ty, what="copy-changes-encoding", **({"class": sig["class"]} if "class" in sig else {})),
+                     dict(detail, octets=exp_o[:24].hex(), copy_encodes_as=rc[1][:24].hex() if rc[0] == "ok" else str(rc[1])[:120]), dict(rp, n=n))
         # Any.cast_in / cast_out carry the application form
         if r["rep"] and r["cap"] and built[0] == "ok" and ty != "RealFromDouble":
             exp_o = render(r["app"])
